@@ -24,8 +24,8 @@ ASSUMPTIONS = ['harness-defined propagatable/clockable Logic subclasses (XNOR of
 BOUNDS = {
     'quick': 'all digraphs on <=3 nodes (all 2^(n^2) edge sets) with every comb/seq assignment, all orders; all placements for n<=2, '
              'flat + 3 hierarchy splits + 1 late-addition for n=3; n=4: all 64 DAGs + every single back-edge/self-loop extension, comb-only, flat',
-    'thorough': 'quick with all placements at n=3 + n=4 DAG(+1 edge) with 6 kind assignments (comb, each single register, all registers) and '
-                'late-addition/hierarchy placements; n=5: all 1024 DAGs comb-only x 120 orders, and the first 128 DAGs + one back edge/self-loop',
+    'thorough': 'quick with all placements at n=3 + n=4 DAG(+1 edge) with 4 kind assignments (comb, register first, register last, all registers), flat + one '
+                'hierarchy split + one late addition; n=5: all 1024 DAGs comb-only x 120 orders, and the first 128 DAGs + one back edge/self-loop',
 }
 
 
@@ -282,8 +282,8 @@ def kind_sets(n, mode):
     if mode == 'comb':
         return [tuple('c' * n)]
     if mode == 'mixed6':
-        # comb only, each single register, all registers
-        return [tuple('c' * n)] + [tuple('s' if i == j else 'c' for i in range(n)) for j in range(n)] + [tuple('s' * n)]
+        # comb only, register first, register last, all registers
+        return [tuple('c' * n), tuple('s' + 'c' * (n - 1)), tuple('c' * (n - 1) + 's'), tuple('s' * n)]
     if mode == 'le1reg':
         return [tuple('c' * n)] + [tuple('s' if i == j else 'c' for i in range(n)) for j in range(n)]
     raise ValueError(mode)
@@ -297,6 +297,8 @@ def placements(n, mode):
     elif mode == 'some':
         out += [('split', m) for m in (1, (1 << n) - 2, 0b0101 & ((1 << n) - 1)) if 0 < m < (1 << n) - 1]
         out += [('late', n // 2)]
+    elif mode == 'few':
+        out += [('split', 0b0101 & ((1 << n) - 1)), ('late', n // 2)]
     return out
 
 
@@ -314,7 +316,7 @@ def shards(tier):
     n = 4
     for code in range(64):
         out.append({'n': 4, 'space': 'dag+1', 'lo': code, 'hi': code + 1,
-                    'kinds': 'mixed6' if T else 'comb', 'place': 'some' if T else 'flat'})
+                    'kinds': 'mixed6' if T else 'comb', 'place': 'few' if T else 'flat'})
     if T:
         for lo in range(0, 1024, 16):
             out.append({'n': 5, 'space': 'dag', 'lo': lo, 'hi': lo + 16, 'kinds': 'comb', 'place': 'flat'})
@@ -347,7 +349,7 @@ def run_shard(d):
     n = d['n']
     res = {'programs': 0, 'cyclic': 0, 'states': 0, 'transitions': 0, 'traces_validated_against_impl': 0,
            'evaluations': 0, 'distinct_nontrivial': 0, 'violations': [], 'samples': [], '_outcomes': set(),
-           '_validate_every': 1 if n <= 3 else 4}
+           '_validate_every': 1 if n <= 2 else (3 if n == 3 else 8)}
     for edges in edge_sets(d):
         for kinds in kind_sets(n, d['kinds']):
             cyc = has_comb_cycle(n, edges, kinds)
